@@ -79,6 +79,33 @@ func checkAfter(c afterCase) *rp.Fail {
 				return rp.Failf("socket/"+c.Path+"/not-sent-after-a-refused-request", "the controller's port was closed (the first request was refused: %v); %d ms later it was up: call %d after that put %d request(s) in total on the wire and returned %v %v", first.Err, c.GapMs, i, n, res.Err, res.Panic)
 			}
 		}
+	case "listen-address-is-not-a-bind-address":
+		// no bind IP (none at all, or 0.0.0.0) and a listen address on another local IP: where events are received says nothing
+		// about where requests leave from - a broadcast-path request to a sink on 127.0.0.1 leaves from the address the host
+		// chooses for that destination, 127.0.0.1, and a directed one too
+		sink, err := f.UDP([4]byte{127, 0, 0, 1}, 0, farm.Script(func(r farm.Received) []farm.Action { return []farm.Action{{Data: answer(r.Data)}} }))
+		if err != nil {
+			return nil
+		}
+		cfg := hook.ClientCfg{TimeoutMs: 1000, NoBind: !c.FixedPort, HasListen: true, ListenIP: [4]byte{127, 0, 0, 2}, ListenPort: 60001}
+		if c.FixedPort { // (used as 'bind 0.0.0.0:0 instead of no bind address')
+			cfg.BindIP = [4]byte{0, 0, 0, 0}
+		}
+		if c.Path == "udp" {
+			cfg.Devices = []hook.DeviceCfg{{Serial: serial, HasAddr: true, IP: [4]byte{127, 0, 0, 1}, Port: sink.Addr.Port(), Protocol: "udp"}}
+		} else {
+			cfg.HasBroadcast, cfg.BroadcastIP, cfg.BroadcastPort = true, [4]byte{127, 0, 0, 1}, sink.Addr.Port()
+		}
+		u := hook.Real(cfg)
+		res := api.Invoke(u, api.Case{Call: spec.Call{Op: "GetTime", Serial: serial}})
+		time.Sleep(20 * time.Millisecond)
+		log := sink.Log()
+		if res.Panic != nil || len(log) != 1 {
+			return rp.Failf("socket/"+c.Path+"/send-count/listen-address", "a client without a bind IP and with the listen address 127.0.0.2:60001: %d requests arrived (%v %v)", len(log), res.Err, res.Panic)
+		}
+		if from := log[0].From.Addr().Unmap().String(); from != "127.0.0.1" {
+			return rp.Failf("socket/"+c.Path+"/wrong-source/listen-address", "a client without a bind IP (listen address 127.0.0.2:60001) sent its request to 127.0.0.1 from %s - the listen address is where events arrive, not where requests leave from", from)
+		}
 	case "after-a-bound-client":
 		ip := [4]byte{127, 0, 3, 42}
 		var froms func() []string
@@ -140,6 +167,8 @@ func checkAfter(c afterCase) *rp.Fail {
 func sweepAfter(yield func(afterCase) bool) {
 	cases := []afterCase{{Kind: "refused-then-reachable", Path: "udp", GapMs: 50}, {Kind: "after-a-bound-client", Path: "udp"}, {Kind: "after-a-bound-client", Path: "tcp", FixedPort: true}, {Kind: "refused-then-reachable", Path: "tcp", GapMs: 20},
 		{Kind: "refused-then-reachable", Path: "udp", GapMs: 600}, {Kind: "after-a-bound-client", Path: "udp", FixedPort: true}, {Kind: "after-a-bound-client", Path: "tcp"}, {Kind: "refused-then-reachable", Path: "udp", GapMs: 1500}}
+	cases = append(cases, afterCase{Kind: "listen-address-is-not-a-bind-address", Path: "broadcast"}, afterCase{Kind: "listen-address-is-not-a-bind-address", Path: "udp"},
+		afterCase{Kind: "listen-address-is-not-a-bind-address", Path: "broadcast", FixedPort: true}, afterCase{Kind: "listen-address-is-not-a-bind-address", Path: "udp", FixedPort: true})
 	for i, c := range cases {
 		if ev.Mine(i) && !yield(c) {
 			return
